@@ -480,7 +480,7 @@ func cases(tier string, seed int64) []eng.Case {
 func init() {
 	eng.Register(&eng.Monitor{
 		ID: "C05", Level: "exploration",
-		Rule: "cases = seeded (logN 4..11, plaintext modulus of 8..60 bits incl. cyclotomic order < 2N, 2..8 Q primes of 20..61 bits (Q[0] > t always; in 5 of 6 configurations every prime > t, in the others later primes may be smaller than t), 1..2 P primes, default/sparse ternary secret, BGV or BFV evaluator obtained by NewEvaluator/ShallowCopy/WithKey, sk or pk encryption); each case runs 2..6 seeded straight-line programs of up to 16 (quick) / 24 (thorough) steps over a pool of ciphertexts; every step is one public bgv.Evaluator call and is judged on its own (model over Z_t, recorded level/degree/scale, Decode(Decrypt(.)), measured noise vs one-step worst-case bound), so the failing step is the shrunk witness. A step is only executed when its worst-case noise bound, computed from the measured noise of its operands, is below Q_level/4. distinct key = (mode, gap>1, normalised program text = sequence of method(operand kind, receiver placement, scale-equal?, level/degree relations)); non-trivial = multiplicative depth >= 2 or >= 2 different operand kinds or at least one step with unequal operand scales. 'errors' cases call every documented failure condition and require an error (no panic, no value).",
+		Rule:  "cases = seeded (logN 4..11, plaintext modulus of 8..60 bits incl. cyclotomic order < 2N, 2..8 Q primes of 20..61 bits (Q[0] > t always; in 5 of 6 configurations every prime > t, in the others later primes may be smaller than t), 1..2 P primes, default/sparse ternary secret, BGV or BFV evaluator obtained by NewEvaluator/ShallowCopy/WithKey, sk or pk encryption); each case runs 2..6 seeded straight-line programs of up to 16 (quick) / 24 (thorough) steps over a pool of ciphertexts; every step is one public bgv.Evaluator call and is judged on its own (model over Z_t, recorded level/degree/scale, Decode(Decrypt(.)), measured noise vs one-step worst-case bound), so the failing step is the shrunk witness. A step is only executed when its worst-case noise bound, computed from the measured noise of its operands, is below Q_level/4. distinct key = (mode, gap>1, normalised program text = sequence of method(operand kind, receiver placement, scale-equal?, level/degree relations)); non-trivial = multiplicative depth >= 2 or >= 2 different operand kinds or at least one step with unequal operand scales. 'errors' cases call every documented failure condition and require an error (no panic, no value).",
 		Cases: cases,
 		Assumptions: []string{
 			"model arithmetic (bits.Mul64/Div64, math/big) is correct",
